@@ -451,14 +451,28 @@ where
           Ready::readable(),
           PollOpt::edge(),
         )?;
-        self
-          .cc_upload
-          .try_send(WriterCommand::WaitForAcknowledgments {
+        // If the command queue to the Writer is full, keep trying for up to max_wait.
+        // Giving up at once would drop the command together with its reply channel,
+        // which wakes up the poll below immediately: the caller would get "false"
+        // without any waiting at all.
+        let wait_start = Instant::now();
+        match try_send_timeout(
+          &self.cc_upload,
+          WriterCommand::WaitForAcknowledgments {
             all_acked: acked_sender,
-          })
-          .unwrap_or_else(|e| {
+          },
+          Some(duration::Duration::from_std(max_wait)),
+        ) {
+          Ok(()) => (),
+          Err(TrySendError::Full(_)) => {
+            warn!("wait_for_acknowledgments: cannot initiate waiting. Writer command queue full.");
+            return Ok(false); // we have already used up max_wait
+          }
+          Err(e) => {
             warn!("wait_for_acknowledgments: cannot initiate waiting. This will timeout. {e}");
-          });
+          }
+        }
+        let max_wait = max_wait.saturating_sub(wait_start.elapsed());
 
         let mut events = Events::with_capacity(1);
         poll.poll(&mut events, Some(max_wait))?;
